@@ -1,4 +1,5 @@
 import Gimli.Lemmas.RelocWrite
+import Gimli.Lemmas.RelocWriteComplete
 import Gimli.Lemmas.RelocReadSim
 import Gimli.Model.Utf8
 /-!
@@ -42,6 +43,17 @@ theorem reloc_write_in_bounds (e : Endian) (calls : List Call) (b0 : Bytes) (ρ 
   have hinv : Inv ⟨fun _ => 0, fun _ => 0⟩ e (.ok []) (([], []) : Bytes × List Reloc) :=
     ⟨fun r hr => (nomatch hr), fun _ => Iff.rfl⟩
   exact (runR_inv calls _ _ hinv hnc _ hr).bounds
+
+/-- **The recording writer accepts whatever direct writing accepts**, with a section of the same
+length — except symbolic `.eh_frame` pointers whose encoding has no fixed size (LEB128) or is
+unknown (`SymSized`), which `RelocateWriter::write_eh_pointer` refuses. Together with
+`reloc_write_transparent`: for such call sequences without clobbering, direct writing succeeds
+with `b` iff recording succeeds and applying the recorded relocations gives `b`. -/
+theorem reloc_write_complete (env : Env) (e : Endian) (calls : List Call) (b : Bytes)
+    (hd : runD env e [] calls = .ok b) (hs : ∀ c ∈ calls, SymSized c) :
+    ∃ b0 ρ, runR e ([], []) calls = .ok (b0, ρ) ∧ b0.length = b.length := by
+  obtain ⟨st', h1, h2⟩ := runR_of_runD calls [] b ([], []) rfl hd hs
+  exact ⟨st'.1, st'.2, h1, h2⟩
 
 /-! ## (2) reading -/
 
